@@ -85,7 +85,7 @@ func runBytea(r *core.Run) {
 			}
 		}
 		r.Begin(fmt.Sprintf("pg-chain-%s-%s", showRow(row), showNats(fmts)), len(row) > 0, "stream:structured", "pg:chain-identity")
-		got := r.Impl(fmt.Sprintf("C12.pg.chain %s %s", showNats(fmts), core.Hex(msg)))
+		got := r.Do(fmt.Sprintf("C12.pg.chain %s %s", showNats(fmts), core.Hex(msg))) // compared with Typed.pgChainNoSetting inside Pg.rewriteRow
 		r.Check(got == core.OkHex(msg), class, fmt.Sprintf("DataRow %s changed or rejected by the decoder/encoder subscribers although no column is configured: %.120s", showRow(row), got))
 	}
 }
